@@ -930,16 +930,16 @@ func main() {
 		}
 		return 12
 	}
-	for i := c.Count(40, 2000); i > 0; i-- {
+	for i := c.Count(320, 5000); i > 0; i-- {
 		histCase(c, "linear-cf", synth.GenHist(rng, synth.GenOpts{Linear: true, SingleHead: true, MaxCommits: size()}))
 	}
-	for i := c.Count(150, 8000); i > 0; i-- {
+	for i := c.Count(1200, 20000); i > 0; i-- {
 		histCase(c, "dag1", synth.GenHist(rng, synth.GenOpts{SingleHead: true, MergeAddsPr: 3, MaxCommits: size()}))
 	}
-	for i := c.Count(40, 2000); i > 0; i-- {
+	for i := c.Count(320, 5000); i > 0; i-- {
 		histCase(c, "dag1-addm", synth.GenHist(rng, synth.GenOpts{SingleHead: true, MergeAddsPr: 1, MaxCommits: size()}))
 	}
-	for i := c.Count(40, 2000); i > 0; i-- {
+	for i := c.Count(320, 5000); i > 0; i-- {
 		var h *synth.Hist
 		for {
 			h = synth.GenHist(rng, synth.GenOpts{MergeAddsPr: 3, MaxCommits: size()})
@@ -952,7 +952,7 @@ func main() {
 		in.files = i%2 == 0
 		emit(c, in)
 	}
-	for i := c.Count(9, 400); i > 0; i-- {
+	for i := c.Count(70, 1000); i > 0; i-- {
 		for _, sh := range shapes(rng) {
 			o := synth.GenOpts{MergeAddsPr: 3, SameTick: sh.same}
 			if rng.Intn(3) == 0 {
@@ -967,13 +967,13 @@ func main() {
 			emit(c, in)
 		}
 	}
-	for i := c.Count(5, 200); i > 0; i-- {
+	for i := c.Count(20, 300); i > 0; i-- {
 		lin := notext(rng)
 		in := &input{kind: "notext", lin: lin, keep: allIdx(len(lin))}
 		params(rng, in, false)
 		emit(c, in)
 	}
-	for i := c.Count(60, 4000); i > 0; i-- {
+	for i := c.Count(480, 10000); i > 0; i-- {
 		lin := synth.GenLinear(rng, 10)
 		in := &input{kind: "lin", lin: lin, keep: allIdx(len(lin))}
 		params(rng, in, false)
